@@ -44,7 +44,13 @@ type Case struct {
 type Filter struct {
 	Include []string `json:"include,omitempty"`
 	Exclude []string `json:"exclude,omitempty"`
+	// Relaxed: parser { relaxed = [...] }; when set it matches every path of the vocabulary (and
+	// not the empty string), and files may be bare rule lists.
+	Relaxed []string `json:"relaxed,omitempty"`
 }
+
+// filtering: include / exclude patterns are present.
+func (f *Filter) filtering() bool { return f != nil && (len(f.Include) > 0 || len(f.Exclude) > 0) }
 
 func (f *Filter) allowed(path string) bool {
 	if f == nil {
@@ -81,10 +87,15 @@ func (f *Filter) hcl() string {
 	if len(f.Exclude) > 0 {
 		s += "  exclude = " + q(f.Exclude) + "\n"
 	}
+	if len(f.Relaxed) > 0 {
+		s += "  relaxed = " + q(f.Relaxed) + "\n"
+	}
 	return s + "}\n"
 }
 
 // filters over the generator's path vocabulary (rules/{a,b,c,d}.yml, rules/sub/{e,f}.yml, top.yml, alerts/g.yaml)
+var relaxedPatterns = [][]string{{`.+`}, {`rules/.*`, `top\.yml`, `alerts.*`}}
+
 var filters = []Filter{
 	{Include: []string{`rules/.*`}},
 	{Include: []string{`rules/[^/]*\.yml`}},
@@ -297,7 +308,7 @@ type verdict struct {
 // oracle checks a complete classification (path -> rules in file order).
 func oracle(h hist.History, flt *Filter, observed map[string][]Obs, rx relax) (verdict, error) {
 	var v verdict
-	if flt != nil {
+	if flt.filtering() {
 		// the reference is computed on what the filter lets pint see: files outside do not exist,
 		// a rename to a path outside is a deletion, a rename from outside is a creation (CameIn)
 		v.outside = len(h.Head())
@@ -403,11 +414,11 @@ func oracle(h hist.History, flt *Filter, observed map[string][]Obs, rx relax) (v
 var defaultChanged = []string{"alerts/comparison", "alerts/for", "alerts/template", "promql/fragile", "promql/impossible", "promql/regexp", "promql/syntax"}
 
 func observeInProcess(repo *hist.Repo, ci *hist.CIChecks, flt *Filter) (map[string][]Obs, error) {
-	var inc, exc []string
+	var inc, exc, rel []string
 	if flt != nil {
-		inc, exc = flt.Include, flt.Exclude
+		inc, exc, rel = flt.Include, flt.Exclude, flt.Relaxed
 	}
-	found := repo.DiscoverFiltered(50, inc, exc)
+	found := repo.DiscoverParser(50, inc, exc, rel)
 	if found.Panic != nil {
 		return nil, fmt.Errorf("pint's discovery panicked: %v\n%s", found.Panic, found.Stack)
 	}
@@ -417,6 +428,11 @@ func observeInProcess(repo *hist.Repo, ci *hist.CIChecks, flt *Filter) (map[stri
 	out := map[string][]Obs{}
 	for _, e := range found.Entries {
 		if e.PathError != nil {
+			if len(rel) > 0 && e.State != discovery.Noop {
+				// the branch finder (not the glob finder) failed to read a file that is valid in relaxed
+				// mode: not a rule, nothing to classify; the rules of the file are judged as listed
+				continue
+			}
 			return nil, fmt.Errorf("%w: generated file %s does not parse: %v", errHarness, e.Path.Name, e.PathError)
 		}
 		if e.Rule.Error.Err != nil {
@@ -520,6 +536,9 @@ func judge(h hist.History, flt *Filter, obs map[string][]Obs) (verdict, string, 
 	if fileToDir(h) {
 		return v, classFileToDir, err
 	}
+	if relaxedAdd(h, flt) {
+		return v, classRelaxedAdd, err
+	}
 	if disableReordered(h) {
 		if _, e2 := oracle(h, flt, obs, relax{disableOrder: true}); e2 == nil {
 			return v, classDisableReorder, err
@@ -579,6 +598,8 @@ const (
 	classMovedOut = "file-renamed-out-of-parser-filter"
 	// see fileToDir
 	classFileToDir = "file-replaced-by-directory"
+	// a file that is only valid in relaxed mode is added on the branch under a parser { relaxed } path
+	classRelaxedAdd = "relaxed-only-file-added-on-branch"
 )
 
 func usesOp(h hist.History, kind string) bool {
@@ -612,6 +633,18 @@ func fileToDir(h hist.History) bool {
 			if strings.HasPrefix(f.Path, p+"/") {
 				return true
 			}
+		}
+	}
+	return false
+}
+
+func relaxedAdd(h hist.History, flt *Filter) bool {
+	if flt == nil || len(flt.Relaxed) == 0 {
+		return false
+	}
+	for _, tr := range h.Ledger() {
+		if hf, ok := h.Head().Get(tr.Path); ok && hf.File.Bare && tr.Origins[0].Path == "" {
+			return true
 		}
 	}
 	return false
@@ -680,7 +713,7 @@ func profile(known map[string]string) hist.Profile {
 		Weights: map[string]int{
 			"file-add": 2, "file-del": 2, "rename": 3, "rename-edit": 1,
 			"rule-add": 5, "rule-mod": 8, "rule-del": 4, "rule-dup": 2, "rule-swap": 1,
-			"cosmetic": 6, "filectl": 2, "revert": 3, "rule-trim": 4, "invalid-add": 1, "invalid-del": 1, "file-dir": 1,
+			"cosmetic": 6, "filectl": 2, "revert": 3, "rule-trim": 4, "invalid-add": 1, "invalid-del": 1, "file-dir": 1, "path-reuse": 2,
 		},
 		ReorderDisable: !reorderListed,
 		Cosmetics:      true,
@@ -766,14 +799,29 @@ func flagsOf(c Case) []string {
 			fl = append(fl, op)
 		}
 	}
+	for _, cm := range h.Branch {
+		for _, op := range cm.Ops {
+			if strings.Contains(op, "path-reuse") && !has(fl, "path-reuse") {
+				fl = append(fl, "path-reuse")
+			}
+		}
+	}
 	if len(h.MainAfter) > 0 {
 		fl = append(fl, "main+")
 	}
 	if c.Bin {
 		fl = append(fl, "bin")
 	}
-	if c.Filter != nil {
+	if c.Filter.filtering() {
 		fl = append(fl, "filter")
+	}
+	if c.Filter != nil && len(c.Filter.Relaxed) > 0 {
+		fl = append(fl, "relaxed")
+		for _, f := range c.History.Head() {
+			if f.File.Bare && !has(fl, "bare-file-at-head") {
+				fl = append(fl, "bare-file-at-head")
+			}
+		}
 	}
 	sort.Strings(fl)
 	return fl
@@ -821,6 +869,15 @@ func TestPropHistory(t *testing.T) {
 			pp.Allowed = flt.allowed
 			_, pp.NoMoveOut = known[classMovedOut]
 		}
+		// one case in four runs with parser { relaxed } over the whole path vocabulary and bare rule lists
+		_, noRelaxed := known[classRelaxedAdd]
+		if ri := rapid.IntRange(0, 4*len(relaxedPatterns)-1).Draw(rt, "relaxed"); ri < len(relaxedPatterns) && !noRelaxed {
+			if flt == nil {
+				flt = &Filter{}
+			}
+			flt.Relaxed = relaxedPatterns[ri]
+			pp.BareOneIn = 2
+		}
 		c := Case{History: hist.Gen(rt, pp), Filter: flt}
 		// the classification must not depend on how the branches are called (the feature branch is
 		// never the base branch) nor on how pint is told about the base branch
@@ -849,7 +906,7 @@ func TestPropHistory(t *testing.T) {
 		for _, f := range flagsOf(c) {
 			rec.Count("histories_with:"+f, 1)
 		}
-		if c.Filter != nil {
+		if c.Filter.filtering() {
 			rec.Count("filter:head_files_outside", int64(v.outside))
 			rec.Count("filter:head_files_that_came_into_the_filter", int64(v.crossedIn))
 		}
@@ -956,6 +1013,14 @@ func minimalCases() map[string]Case {
 				{Msg: "edit rules/a.yml", Ops: []string{"rule-mod rules/a.yml"}, Tree: tree(map[string]hist.File{"rules/a.yml": oneGroup(nil, added, other), "rules/b.yml": oneGroup(nil, other)})},
 				{Msg: "park the file outside rules/", Ops: []string{"rename rules/a.yml->top.yml"}, Renames: [][2]string{{"rules/a.yml", "top.yml"}}, Tree: tree(map[string]hist.File{"top.yml": oneGroup(nil, added, other), "rules/b.yml": oneGroup(nil, other)})},
 			},
+		}},
+		// a bare rule list (valid under parser { relaxed }) is added on the branch
+		"relaxed-file-added": {Bin: true, Filter: &Filter{Relaxed: []string{`.+`}}, History: hist.History{
+			Base: []hist.Commit{{Msg: "base", Tree: tree(map[string]hist.File{"rules/a.yml": oneGroup(nil, old)})}},
+			Branch: []hist.Commit{{Msg: "add a bare rule list", Ops: []string{"file-add rules/b.yml"}, Tree: tree(map[string]hist.File{
+				"rules/a.yml": oneGroup(nil, old),
+				"rules/b.yml": {Bare: true, Groups: []hist.Group{{Name: "g1", Rules: []hist.Rule{other, added}}}},
+			})}},
 		}},
 		// two file/disable comments swap places
 		"file-disable-reorder": {Bin: true, History: hist.History{
